@@ -1,8 +1,285 @@
 import CM.Lib.Wire
-/-! Driver handler for C13 (stub: not built yet). -/
-namespace CM.Drv.C13
-open CM.Wire
+import CM.Model.SingleFlight
+/-! Driver handler for C13.
 
-def handle (_args _impl : List String) : String := bad
+`sf <kind> <outcome> <hold> <holdFor ns> <b> <d> <a> => <issues> <loads> <gates> <mapsEmpty> ; <phase 1> ; <phase 2> ; <phase 3>`
+
+The driver runs the single-flight LTS (`CM.SingleFlight.step`, the definition the theorems
+are about) on the same script as the harness: every thread is run to its next blocking point
+("run thread t to its next yield or block", DESIGN 2.2), the environment (cache, storage,
+policy, issuer) is a small record updated by the events, virtual time moves only between
+the phases. Every event must be enabled (otherwise the answer is `invalid-trace`); the answer
+is the predicted observables in the harness's format.
+-/
+namespace CM.Drv.C13
+open CM.Wire CM.SingleFlight
+
+structure Env where
+  cached : Bool := false
+  expired : Bool := false
+  revoked : Bool := false
+  due : Bool := false
+  fresh : Bool := false
+  stored : Bool := false
+  sExpired : Bool := false
+  sDue : Bool := false
+  sFresh : Bool := false
+  permit : Bool := true
+
+structure Sim where
+  s : State := init
+  env : Env := {}
+  now : Int := 0
+  phaseOf : List (Nat × Nat) := []           -- thread ↦ phase (calls only; goroutines have none)
+  order : List Nat := []                      -- threads in start order (goroutines included)
+  waitSince : List (Nat × Int) := []
+  cls : List (Nat × String) := []
+  fin : List (Nat × String × Int) := []
+  gateDone : List Nat := []                   -- renewers whose policy gate has been passed
+  inHand : List (Nat × Bool) := []            -- threads maintaining a certificate they hold: is it expired?
+  issues : Nat := 0
+  loads : Nat := 0
+  gates : Nat := 0
+  held : Option Nat := none
+  holdKind : String := ""                     -- issue | gate | load | exists | "" (nothing is held)
+  nextG : Nat := 1000
+  valid : Bool := true
+
+def lookupD {α : Type} (l : List (Nat × α)) (k : Nat) (d : α) : α :=
+  match l.find? (fun x => x.1 == k) with
+  | some x => x.2
+  | none => d
+
+def setL {α : Type} (l : List (Nat × α)) (k : Nat) (v : α) : List (Nat × α) :=
+  (k, v) :: l.filter (fun x => x.1 != k)
+
+def Sim.fire (m : Sim) (e : Ev) : Sim :=
+  match step true m.s e with
+  | some s' => { m with s := s' }
+  | none => { m with valid := false }
+
+def Sim.setCls (m : Sim) (t : Nat) (c : String) : Sim := { m with cls := setL m.cls t c }
+
+/-- is the thread at the yield point at which the scenario holds the worker? -/
+def atHold (m : Sim) (t : Nat) : Bool :=
+  match m.s.pc t with
+  | .obtaining => m.holdKind == "issue"
+  | .renewing _ => if m.gateDone.contains t then m.holdKind == "issue" else m.holdKind == "gate"
+  | .gate _ => m.holdKind == "gate"
+  | .loading => m.holdKind == "load"
+  | .maint _ rv => m.holdKind == "exists" || (m.holdKind == "gate" && !rv && !m.env.stored)
+  | _ => false
+
+/-- outcome of the issuer as the worker sees it -/
+structure Outcome where
+  ok : Bool
+  issues : Nat       -- issuer calls it makes
+  attempts : Nat     -- runs of the renew closure (each loads the bundle)
+
+/-- one step of thread t (not held, not blocked); `oc`: what the issuer does -/
+def stepThread (m : Sim) (t : Nat) (oc : Outcome) : Option Sim :=
+  let env := m.env
+  match m.s.pc t with
+  | .idle => none
+  | .done _ => none
+  | .lookup load =>
+    let mt := env.due || env.revoked
+    let m1 := m.fire (.look t env.cached mt (!env.expired) env.revoked)
+    some (if env.cached && !(load && mt) then m1.setCls t (if env.fresh then "new" else "cur")
+          else if env.cached then { m1 with inHand := setL m1.inHand t env.expired } else m1)
+  | .loadSF _ =>
+    let m1 := m.fire (.enterLoad t)
+    some { m1 with waitSince := setL m1.waitSince t m.now }
+  | .waitLoad c => if m.s.closedL c then some (m.fire (.wake t)) else none
+  | .waitObtain c => if m.s.closedO c then some (m.fire (.wake t)) else none
+  | .gate load =>
+    let m1 := { m with gates := m.gates + 1 }
+    let m2 := m1.fire (.gated t env.permit .err)
+    some (if load && env.permit then m2 else m2.setCls t "err")
+  | .loading =>
+    if env.stored then
+      let env' := { env with cached := true, expired := env.sExpired, due := env.sDue || env.sExpired,
+                             fresh := env.sFresh, revoked := false }
+      let mt := env'.due
+      let m1 := { m with env := env', loads := m.loads + 1 }
+      let m2 := m1.fire (.loaded t true mt (!env'.expired) false)
+      some (if mt then { m2 with inHand := setL m2.inHand t env'.expired } else m2.setCls t (if env'.fresh then "new" else "cur"))
+    else
+      some ({ m with loads := m.loads + 2 }.fire (.loaded t false false false false))
+  | .maint tl rv =>
+    let missing := !env.stored
+    let m1 := if !rv && missing then { m with gates := m.gates + 1 } else m
+    let m2 := m1.fire (.maintGo t missing env.permit)
+    some (if !rv && missing && !env.permit then m2.setCls t (if tl then "cur" else "err") else m2)
+  | .obtainSF =>
+    let m1 := m.fire (.enterObtain t)
+    some { m1 with waitSince := setL m1.waitSince t m.now }
+  | .renewSF tl rv =>
+    let u := m.nextG
+    let inFlight := m.s.obtCh.isSome
+    let m1 := m.fire (.enterRenew t u)
+    let m2 := { m1 with waitSince := setL m1.waitSince t m.now }
+    match decision tl rv inFlight with
+    | .serveCurrent => some (m2.setCls t "cur")
+    | .serveAndRenewInBackground => some ({ m2 with nextG := u + 1, order := m2.order ++ [u] }.setCls t "cur")
+    | _ => some m2
+  | .obtaining =>
+    if oc.ok then
+      let env' := { env with stored := true, sExpired := false, sDue := false, sFresh := true, cached := true,
+                             expired := false, due := false, revoked := false, fresh := true }
+      -- (storeTx reads the previous values, then the new bundle is loaded)
+      some (({ m with env := env', issues := m.issues + oc.issues, loads := m.loads + 2 }.fire (.finish t true)).setCls t "new")
+    else
+      some (({ m with issues := m.issues + oc.issues }.fire (.finish t false)).setCls t "err")
+  | .renewing _ =>
+    if !m.gateDone.contains t then
+      -- the policy gate of renewAndReload
+      let m1 := { m with gates := m.gates + 1 }
+      if env.permit then some { m1 with gateDone := t :: m1.gateDone }
+      else some (({ m1 with env := { env with cached := false } }.fire (.finish t false)).setCls t "err")
+    else if oc.ok then
+      let env' := { env with stored := true, sExpired := false, sDue := false, sFresh := true, cached := true,
+                             expired := false, due := false, revoked := false, fresh := true }
+      some (({ m with env := env', issues := m.issues + oc.issues, loads := m.loads + oc.attempts + 2 }.fire (.finish t true)).setCls t "new")
+    else
+      -- a failed forced renewal of a revoked certificate removes it from the cache
+      let env' := if env.revoked then { env with cached := false } else env
+      some (({ m with env := env', issues := m.issues + oc.issues, loads := m.loads + oc.attempts }.fire (.finish t false)).setCls t "err")
+  | .unwind r =>
+    let m1 := m.fire (.ret t)
+    -- optionalMaintenance / loadCertFromStorage: a failed maintenance still serves the certificate
+    -- in hand unless it is expired
+    let c := match r with
+      | .err => if lookupD m.inHand t true then "err" else "cur"
+      | _ => lookupD m.cls t "?"
+    some { m1 with fin := m1.fin ++ [(t, c, m.now)] }
+
+/-- run thread t until it blocks, is held at the scenario's yield point, or is done -/
+def advance (oc : Outcome) : Nat → Sim → Nat → Sim
+  | 0, m, _ => { m with valid := false }
+  | fuel + 1, m, t =>
+    if m.held.isNone && m.holdKind != "" && atHold m t then { m with held := some t }
+    else if m.held == some t then m
+    else match stepThread m t oc with
+      | none => m
+      | some m' => advance oc fuel m' t
+
+/-- all threads, in start order, until nothing moves (a woken thread may wake others) -/
+def settle (oc : Outcome) : Nat → Sim → Sim
+  | 0, m => m
+  | fuel + 1, m =>
+    let m' := m.order.foldl (fun acc t => advance oc 200 acc t) m
+    if m'.fin.length == m.fin.length && m'.order.length == m.order.length && m'.gates == m.gates &&
+       m'.issues == m.issues && m'.loads == m.loads then m' else settle oc fuel m'
+
+def startCalls (oc : Outcome) (m : Sim) (phase n : Nat) : Sim :=
+  (List.range n).foldl (fun acc _ =>
+    let t := acc.phaseOf.length
+    let acc1 := { acc with phaseOf := acc.phaseOf ++ [(t, phase)], order := acc.order ++ [t] }.fire (.begin t)
+    let acc2 := advance oc 200 acc1 t
+    -- goroutines it has started run as well
+    (acc2.order.filter (· ≥ 1000)).foldl (fun a u => advance oc 200 a u) acc2) m
+
+/-- waiters whose 2-minute timer fires before `limit` (exclusive unless `incl`) time out -/
+def timeouts (oc : Outcome) (m : Sim) (limit : Int) (incl : Bool) : Sim :=
+  m.order.foldl (fun acc t =>
+    let waiting := match acc.s.pc t with
+      | .waitLoad c => !acc.s.closedL c
+      | .waitObtain c => !acc.s.closedO c
+      | _ => false
+    let dl := lookupD acc.waitSince t 0 + waiterTimeout
+    if waiting && (dl < limit || (incl && dl == limit)) then
+      let saved := acc.now
+      let acc1 := ({ acc with now := dl }.fire (.timeout t)).setCls t "err"
+      { advance oc 200 acc1 t with now := saved }
+    else acc) m
+
+def fmtGroup (m : Sim) (phase : Nat) : String :=
+  let xs := m.fin.filterMap (fun (t, c, tm) =>
+    if lookupD m.phaseOf t 0 == phase && t < 1000 then some (c ++ "@" ++ toString tm) else none)
+  let sorted := xs.mergeSort (fun a b => decide (a ≤ b))
+  sorted.foldl (fun acc x => acc ++ " " ++ x) " ;"
+
+def initialEnv (kind : String) (permit : Bool) : Env :=
+  match kind with
+  | "load" => { stored := true, permit := permit }
+  | "renewExpired" => { stored := true, sExpired := true, cached := true, expired := true, due := true, permit := permit }
+  | "obtainMissing" => { cached := true, expired := true, due := true, permit := permit }
+  | "d9" => { stored := true, sExpired := true, permit := true }
+  | "renewWindow" => { stored := true, sDue := true, cached := true, due := true, permit := permit }
+  | "renewRevoked" => { stored := true, cached := true, revoked := true, permit := permit }
+  | _ => { permit := permit }
+
+def simulate (kind outcome hold : String) (holdFor : Int) (b d a : Nat) : Sim :=
+  let outcome0 := outcome
+  let background := kind == "renewWindow" || kind == "renewRevoked"
+  -- a cancelled caller context does not reach a goroutine's renewal
+  let outcome := if outcome == "cancel" && background then "ok" else outcome
+  let deadline : Int := if kind == "obtain" || kind == "obtainMissing" then obtainTimeout else if background then renewBgTimeout else renewFgTimeout
+  -- issuer error with retries: the first attempt ends at holdFor, the next ones follow the retry
+  -- intervals (1 min, 2 min, …) as long as they start before the deadline
+  let retryIssues : Nat := if holdFor + 60000000000 < deadline then (if holdFor + 180000000000 < deadline then 3 else 2) else 1
+  -- a worker held beyond its own deadline fails (its context has expired)
+  let outcome := if outcome == "ok" && holdFor ≥ deadline then "err" else outcome
+  let oc : Outcome := match outcome with
+    | "ok" => ⟨true, 1, 1⟩
+    | "errRetry" => ⟨false, retryIssues, retryIssues⟩
+    | _ => ⟨false, 1, 1⟩
+  let ocLater : Outcome := if outcome0 == "ok" then ⟨true, 1, 1⟩ else ⟨false, 1, 1⟩
+  let m0 : Sim := { env := initialEnv kind (outcome != "deny"), holdKind := hold }
+  if kind == "d9" then
+    -- A becomes load worker and is held at the existence check; B becomes the renewer, held at its gate
+    let m1 := startCalls oc { m0 with holdKind := "exists" } 1 1
+    let m2 := startCalls oc { m1 with held := none, holdKind := "gate", env := { m1.env with permit := false } } 1 1
+    let heldB := m2.held
+    -- A is released: it finds the renewal in flight and waits
+    let m3 := advance oc 200 { m2 with held := none, holdKind := "" } 0
+    -- B is released after holdFor and is denied
+    let m4 := { m3 with now := holdFor, held := none }
+    let m5 := settle oc 50 (match heldB with | some t => advance oc 200 m4 t | none => { m4 with valid := false })
+    timeouts oc m5 (m5.now + 100 * waiterTimeout) true
+  else
+  -- phase 1 and 2: all at time 0
+  let m1 := startCalls oc m0 1 (b + 1)
+  let m2 := startCalls oc m1 2 d
+  let heldT := m2.held
+  -- when does the worker leave? at its release, or (retries) at its deadline
+  let tw : Int := if outcome == "errRetry" then deadline else holdFor
+  let m3 := timeouts oc m2 tw false
+  -- release
+  let m4 := { m3 with now := tw, held := none, holdKind := "" }
+  let m5 := match heldT with
+    | some t => advance oc 200 m4 t
+    | none => { m4 with valid := false }
+  let m6 := settle ocLater 100 m5
+  -- phase 3: just after the worker has finished
+  -- (the first of them that has to work is held until all have arrived)
+  let m7 := startCalls ocLater { m6 with holdKind := hold, held := none } 3 a
+  let held3 := m7.held
+  let m8 := { m7 with held := none, holdKind := "" }
+  let m9 := settle ocLater 100 (match held3 with | some t => advance ocLater 200 m8 t | none => m8)
+  timeouts ocLater m9 (m9.now + 100 * waiterTimeout) true
+
+def handle (args impl : List String) : String :=
+  match args with
+  | ["sf", kind, outcome, hold, hf, b, d, a] =>
+    match hf.toInt?, b.toNat?, d.toNat?, a.toNat? with
+    | some hf, some b, some d, some a =>
+      let m := simulate kind outcome hold hf b d a
+      let mapsEmpty := m.s.loadCh.isNone && m.s.obtCh.isNone
+      let allDone := m.order.all (fun t => match m.s.pc t with | .done _ => true | _ => false)
+      let out := toString m.issues ++ " " ++ toString m.loads ++ " " ++ toString m.gates ++ " " ++
+        (if mapsEmpty then "1" else "0") ++ fmtGroup m 1 ++ fmtGroup m 2 ++ fmtGroup m 3
+      let model := if m.valid && allDone then out else "invalid-trace " ++ out
+      -- executable specification on the implementation's observables: every call completed
+      -- (the harness reports the others), maps empty, at most the issuer calls one worker per
+      -- round can make
+      let implMaps := impl.getD 3 "?"
+      let spec := if implMaps == "1" then "ok" else "bad:maps-not-empty-at-quiescence"
+      let k := b + d + a + 1
+      reply model spec (kind ++ "/" ++ outcome ++ "/" ++ (if hf < waiterTimeout then "short" else "long") ++ "/" ++
+        (if k == 1 then "1" else if k ≤ 4 then "few" else "many"))
+    | _, _, _, _ => bad
+  | _ => bad
 
 end CM.Drv.C13
